@@ -7,6 +7,7 @@ import NurbsVerif.Lemmas.RemoveObjFold
 import NurbsVerif.Lemmas.InsertObjExamples
 import NurbsVerif.Lemmas.KnotRowsRemIns
 import NurbsVerif.Lemmas.KnotRowsRemOne
+import NurbsVerif.Lemmas.UniqueExample
 
 /-!
 # C06  Removing a removable knot is exact and inverts insertion
@@ -20,8 +21,11 @@ restores the original net) for curves, for both directions of surfaces and all t
 volumes (gather / scatter of iso-curves as `operations.remove_knot` does it), the arguments the
 library computes for the removal (span `k + r`, multiplicity `s + r`), the object-level round trip
 for curves, surfaces and volumes (one requested direction per call), and equality of evaluated
-points.  Not proved: insertion in several directions followed by removal in several directions; removability of knots that were not
-inserted immediately before (refinement, "whenever removable at all").
+points; and (section (U), curves) "WHENEVER REMOVABLE AT ALL": control points over a knot vector are unique, so a
+knot that can be taken out without changing the curve – however the curve was produced – is taken out exactly.
+(and, per direction, surfaces whose iso-curves are all removable).
+Not proved: insertion in several directions followed by removal in several directions; "removable at all" for
+volumes and at object level (`removeKnot` on a surface / volume `Shape`).
 Proof idea (Lemmas/RemoveInv*.lean): in removal step `t` the left sweep solves
 `Q_i = α_i P_i + (1-α_i) P_{i-1}` for `P_i`, the right sweep for `P_{j-1}`; the removal alphas on
 the refined knots are the insertion alphas on the knots with one copy less; the removability test
@@ -642,5 +646,140 @@ example : Rows.remFlag (fnOf ([0,0,0,1/2,1,1,1] : List ℚ)) (1/2) 2 (1/1000000)
 example : ((insertKnotVolRows exVolQ 2 (1/4) 1 (1/10000000) true).bind
     (fun T => removeKnotVolRows T 2 (1/4) 1 (1/10000000) (1/1000000) true)).map (fun T => (T.kvs, T.sizes, T.net))
       = some (exVolQ.kvs, exVolQ.sizes, exVolQ.net) := by decide +kernel
+
+/-! ## (U) "Whenever removable at all" – from the uniqueness of B-spline control points
+
+`RemovableKnot p d V Ph Q ub r s k` (Lemmas/UniqueRemove.lean; every field explicit): the sorted knot vector
+`V` of the well-formed curve `(V, Ph)` holds `ub` at the positions `k-s+1 .. k+r` (`s + r` copies; `k + r`
+and `s + r` are what `find_span_linear` / `find_multiplicity` return), `1 ≤ r`, `r + s ≤ p ≤ k`; no basis
+function of `V` vanishes on the whole domain (`AllActive`, decidable: `U (max i p) < U (min (i+p+1) n)` for every
+`i < n`); and SOME well-formed curve `Q` over `V` with `r` copies of `ub` taken out has the same points on the
+half-open domain – i.e. the knot IS removable `r` times.  Nothing is assumed about how `Ph` was produced
+(refinement, insertions in any order, fitting, …). -/
+
+/-- **B-spline control points are unique**: two well-formed curve definitions over the same knot vector, in
+    which every control point index is active on a non-empty span of the domain, that have the same point at
+    every parameter of the half-open domain `[U_p, U_n)` have the same control points.  (Proof: local linear
+    independence on each non-empty span – C03 `basisFuns_linearly_independent`, C02
+    `span_polynomial_determines_control_points` – by induction on the degree with the derivative theorem.) -/
+theorem control_points_unique (p d : ℕ) (Ul : List K) (P P' : List (List K)) (hwf : CurveWF p d Ul P)
+    (hlen : P'.length = P.length) (hP' : NetOk d P') (hact : AllActive p P.length (fnOf Ul))
+    (h : ∀ u, fnOf Ul p ≤ u → u < fnOf Ul P.length → ∀ j,
+      (curvePoint p (fnOf Ul) P u).getD j 0 = (curvePoint p (fnOf Ul) P' u).getD j 0) : P = P' :=
+  curve_net_unique p d Ul P P' hwf hlen hP' hact h
+
+omit [Field K] [IsStrictOrderedRing K] in
+/-- `AllActive` says exactly: every control point index is active on a non-empty span inside the domain. -/
+theorem allActive_iff_spans (p n : ℕ) (U : ℕ → K) (hm : Monotone U) (hpn : p + 1 ≤ n) :
+    AllActive p n U ↔ ∀ i, i < n → ∃ κ, p ≤ κ ∧ κ < n ∧ i ≤ κ ∧ κ ≤ i + p ∧ U κ < U (κ+1) :=
+  ⟨fun h i hi => h.span hpn i hi, allActive_of_spans hm⟩
+
+/-- **A removable knot was inserted**: if `ub` is removable `r` times from `(V, Ph)` (witness `Q`), then `Ph` IS
+    the net A5.1 produces by inserting `ub` `r` times into `Q`. -/
+theorem removable_knot_is_inserted (p d : ℕ) (V : List K) (Ph Q : List (List K)) (ub : K) (r s k : ℕ)
+    (h : RemovableKnot p d V Ph Q ub r s k) :
+    Ph = knotInsertion p (fnOf (knotRemovalKv V (k + r) r)) Q ub r s k :=
+  (removable_knot p d V Ph Q ub r r s k 0 h.wf h.active h.reduced h.run h.below h.above h.r1 (le_refl _) h.rs h.pk h.kn
+    (le_refl _) h.same).1
+
+/-- **Whenever removable at all, removal is exact**: A5.8 as coded, called as the library calls it (count `r`,
+    multiplicity `s + r`, span `k + r`, any tolerance `tol2 ≥ 0`), returns EXACTLY the control points `Q` of the
+    curve without the `r` copies. -/
+theorem remove_removable_knot (p d : ℕ) (V : List K) (Ph Q : List (List K)) (ub : K) (r s k : ℕ) (tol2 : K)
+    (h : RemovableKnot p d V Ph Q ub r s k) (htol : 0 ≤ tol2) :
+    knotRemoval p (fnOf V) Ph ub r (s + r) (k + r) tol2 = Q := by
+  have := (removable_knot p d V Ph Q ub r r s k tol2 h.wf h.active h.reduced h.run h.below h.above h.r1 (le_refl _) h.rs
+    h.pk h.kn htol h.same).2
+  rw [this, Nat.sub_self, RemInv.knotInsertion_zero p _ Q ub s k h.pk]
+
+/-- **… and removing it `t ≤ r` times** gives exactly the net of `r - t` insertions of `ub` into `Q`. -/
+theorem remove_removable_knot_t (p d : ℕ) (V : List K) (Ph Q : List (List K)) (ub : K) (r t s k : ℕ) (tol2 : K)
+    (h : RemovableKnot p d V Ph Q ub r s k) (ht1 : 1 ≤ t) (htr : t ≤ r) (htol : 0 ≤ tol2) :
+    knotRemoval p (fnOf V) Ph ub t (s + r) (k + r) tol2
+      = knotInsertion p (fnOf (knotRemovalKv V (k + r) r)) Q ub (r - t) s k :=
+  (removable_knot p d V Ph Q ub r t s k tol2 h.wf h.active h.reduced h.run h.below h.above ht1 htr h.rs h.pk h.kn htol
+    h.same).2
+
+/-- **The evaluated points are unchanged**: the curve after `t ≤ r` removals (knot vector from
+    `knot_removal_kv`, control points from `knot_removal`) has at EVERY parameter of the closed domain the point
+    of the witness curve `Q` – which on the half-open domain is the point of the curve before the removal. -/
+theorem remove_removable_knot_preserves_points (p d : ℕ) (V : List K) (Ph Q : List (List K)) (ub : K) (r t s k : ℕ)
+    (tol2 : K) (h : RemovableKnot p d V Ph Q ub r s k) (ht1 : 1 ≤ t) (htr : t ≤ r) (htol : 0 ≤ tol2)
+    (u : K) (hlo : fnOf V p ≤ u) (hhi : u ≤ fnOf V Ph.length) (j : ℕ) :
+    (curvePoint p (fnOf (knotRemovalKv V (k + r) t)) (knotRemoval p (fnOf V) Ph ub t (s + r) (k + r) tol2) u).getD j 0
+        = (curvePoint p (fnOf (knotRemovalKv V (k + r) r)) Q u).getD j 0 ∧
+      (u < fnOf V Ph.length →
+        (curvePoint p (fnOf (knotRemovalKv V (k + r) t)) (knotRemoval p (fnOf V) Ph ub t (s + r) (k + r) tol2) u).getD j 0
+          = (curvePoint p (fnOf V) Ph u).getD j 0) :=
+  have a := removable_knot_points p d V Ph Q ub r t s k tol2 h.wf h.active h.reduced h.run h.below h.above ht1 htr h.rs
+    h.pk h.kn htol h.same u hlo hhi j
+  ⟨a, fun h2 => a.trans (h.same u hlo h2 j)⟩
+
+/-- **Object level (curves)**: `operations.remove_knot` on the curve object – multiplicity and span found by the
+    library's own searches; `hfm`: the multiplicity found with tolerance `tol` is the true one – removes the
+    removable knot `t ≤ r` times exactly and reports success (either setting of `check`); `t = r` returns the
+    witness curve itself. -/
+theorem curve_remove_removable_knot (rat : Bool) (p d : ℕ) (V : List K) (Ph Q : List (List K)) (ub tol tol2 : K)
+    (r t s k : ℕ) (check : Bool) (h : RemovableKnot p d V Ph Q ub r s k) (ht1 : 1 ≤ t) (htr : t ≤ r)
+    (htol : 0 ≤ tol2) (hfm : findMultiplicity ub V tol = s + r) :
+    removeKnot (RemInv.curveShape rat p V Ph) [some ub] [t] tol tol2 check
+      = (RemInv.curveShape rat p (knotRemovalKv V (k + r) t)
+          (knotInsertion p (fnOf (knotRemovalKv V (k + r) r)) Q ub (r - t) s k), true) ∧
+    (t = r → removeKnot (RemInv.curveShape rat p V Ph) [some ub] [t] tol tol2 check
+      = (RemInv.curveShape rat p (knotRemovalKv V (k + r) r) Q, true)) :=
+  have a := removable_knot_object rat p d V Ph Q ub tol tol2 r t s k check h.wf h.active h.reduced h.run h.below h.above
+    ht1 htr h.rs h.pk h.kn htol h.same hfm
+  ⟨a, fun e => by subst e; rw [a, Nat.sub_self, RemInv.knotInsertion_zero p _ Q ub s k h.pk]⟩
+
+/-! ### non-vacuity: a knot produced by REFINEMENT, removed after other knots were inserted
+
+The quadratic of C05 (knots `0,0,0,½,1,1,1`, four points) refined with density 1: `X = ¼,¼,½,¾,¾` – the second
+copy of `½` is inserted BEFORE the two copies of `¾`, so the round-trip theorems above do not apply to it.  The
+witness `Q` is the fold of the insertions of `¼,¼,¾,¾` (C04/C05: same curve). -/
+
+/-- all hypotheses hold on that input (`k = 5`, `s = 1`, `r = 1`: `½` sits at positions 5, 6 of the refined knots;
+    the proof discharges every field: `decide` for the order facts, C05's `refine_fold_preserves_curve` twice for
+    the equality of the evaluated points) -/
+example : RemovableKnot 2 2 ([0,0,0,1/4,1/4,1/2,1/2,3/4,3/4,1,1,1] : List ℚ)
+    [[0,0],[1/2,1],[7/8,5/4],[5/4,3/2],[3/2,1],[7/4,1/2],[17/8,1/2],[5/2,1/2],[3,1]]
+    [[0,0],[1/2,1],[7/8,5/4],[5/4,3/2],[7/4,1/2],[17/8,1/2],[5/2,1/2],[3,1]] (1/2) 1 1 5 :=
+  UniqueEx.refined_removable
+
+/-- … and on it A5.8 as coded returns the witness (concrete run of the model, any tolerance would do) -/
+example : knotRemoval 2 (fnOf ([0,0,0,1/4,1/4,1/2,1/2,3/4,3/4,1,1,1] : List ℚ))
+    [[0,0],[1/2,1],[7/8,5/4],[5/4,3/2],[3/2,1],[7/4,1/2],[17/8,1/2],[5/2,1/2],[3,1]] (1/2) 1 (1 + 1) (5 + 1) 0
+      = [[0,0],[1/2,1],[7/8,5/4],[5/4,3/2],[7/4,1/2],[17/8,1/2],[5/2,1/2],[3,1]] := by decide +kernel
+
+/-! ### surfaces, per direction: every iso-curve removable ⇒ the gather / scatter returns the witness net -/
+
+/-- **Surfaces, v direction, removable at all**: if every row of `P` (iso-curve `u = x`, gathered as
+    `operations.remove_knot` gathers it) is a curve from which `ub` is removable `r` times, witnessed by the
+    corresponding row of a net `Q` of size `su × (sv - r)`, then the gather / A5.8 on every row / scatter returns
+    exactly `Q` and the v-size `sv - r`. -/
+theorem surface_v_remove_removable_knot (p d : ℕ) (V : List K) (P Q : List (List K)) (ub : K) (r s k su sv : ℕ)
+    (tol2 : K) (hsu : 0 < su) (hlenQ : Q.length = su * (sv - r))
+    (h : ∀ x, x < su → RemovableKnot p d V ((List.range sv).map (fun v => ptsGet P (v + sv * x)))
+      ((List.range (sv - r)).map (fun v => ptsGet Q (v + (sv - r) * x))) ub r s k) (htol : 0 ≤ tol2) :
+    mapSurfV su sv P (fun c => knotRemoval p (fnOf V) c ub r (s + r) (k + r) tol2) = (Q, sv - r) :=
+  surfV_removable p d V P Q ub r s k su sv tol2 hsu hlenQ h htol
+
+/-- **Surfaces, u direction, removable at all** (columns – iso-curves `v = y`; `Q` of size `(su - r) × sv`). -/
+theorem surface_u_remove_removable_knot (p d : ℕ) (V : List K) (P Q : List (List K)) (ub : K) (r s k su sv : ℕ)
+    (tol2 : K) (hsv : 0 < sv) (hlenQ : Q.length = (su - r) * sv)
+    (h : ∀ y, y < sv → RemovableKnot p d V ((List.range su).map (fun u => ptsGet P (y + sv * u)))
+      ((List.range (su - r)).map (fun u => ptsGet Q (y + sv * u))) ub r s k) (htol : 0 ≤ tol2) :
+    mapSurfU su sv P (fun c => knotRemoval p (fnOf V) c ub r (s + r) (k + r) tol2) = (Q, su - r) :=
+  surfU_removable p d V P Q ub r s k su sv tol2 hsv hlenQ h htol
+
+/-- non-vacuity: a `2 × 9` net whose two rows are the refined curve above; the v-direction removal returns the
+    `2 × 8` witness net -/
+example : mapSurfV 2 9 (UniqueEx.Ph ++ UniqueEx.Ph)
+    (fun c => knotRemoval 2 (fnOf UniqueEx.V) c (1/2) 1 (1 + 1) (5 + 1) 0) = (UniqueEx.Q ++ UniqueEx.Q, 9 - 1) :=
+  surface_v_remove_removable_knot 2 2 UniqueEx.V _ _ (1/2) 1 1 5 2 9 0 (by omega) (by decide)
+    UniqueEx.rows_removable (le_refl _)
+
+/-- the activity hypothesis fails exactly when a basis function vanishes on the domain: a knot of
+    multiplicity `p + 2` -/
+example : ¬ AllActive 1 4 (fnOf ([0,0,1/2,1/2,1/2,1,1] : List ℚ)) := by decide +kernel
 
 end C06
